@@ -22,9 +22,11 @@ STD = ["From Coq Require Import Ascii String.", "From Coq Require Import List NA
 
 TABLE = {
  "C01": dict(
-   intro="C01 -- parsing is total.\n   Termination: the model's OutOfFuel value (a loop of the Rust source that does not finish, or entity\n   recursion deeper than the level fuel) is unreachable on valid UTF-8 input: every loop iteration consumes\n   input and the loop detector bounds the entity nesting.  (On byte strings that are not valid UTF-8 the\n   model can loop: termination_needs_valid_utf8; a Rust &str is always valid UTF-8.)\n   No panic: the tokenizer reaches none of its panic sites (slicing, indexing, advance, unwrap) on valid\n   UTF-8, with any callback that does not panic itself; the real callback preserves the builder invariant\n   Core and reaches no panic site either; the final root-children check is covered through the arena\n   invariant of C02.  Together: parse_no_panic and parse_terminates, i.e. parse returns Ok or Err for every\n   valid UTF-8 input and every limit that fits the u32 field.  (The one site that could not be excluded,\n   ShortRange::from in resolve_namespaces, was a genuine defect: D17, repaired.)",
-   imports=["From RX.Proofs Require Import TermStream TermUtf8 TermParse TermFinal NoPanicUtf8 NoPanicStream NoPanicTokenizer NoPanicBuilder NoPanicBuilderCtx NoPanicText NoPanicParse NoPanicFinal."],
+   intro="C01 -- parsing is total.\n   Termination: the model's OutOfFuel value (a loop of the Rust source that does not finish, or entity\n   recursion deeper than the level fuel) is unreachable on valid UTF-8 input: every loop iteration consumes\n   input and the loop detector bounds the entity nesting.  (On byte strings that are not valid UTF-8 the\n   model can loop: termination_needs_valid_utf8; a Rust &str is always valid UTF-8.)\n   No panic: the tokenizer reaches none of its panic sites (slicing, indexing, advance, unwrap) on valid\n   UTF-8, with any callback that does not panic itself; the real callback preserves the builder invariant\n   Core and reaches no panic site either; the final root-children check is covered through the arena\n   invariant of C02.  Together: parse_no_panic and parse_terminates, i.e. parse returns Ok or Err for every\n   valid UTF-8 input and every limit that fits the u32 field.  (The one site that could not be excluded,\n   ShortRange::from in resolve_namespaces, was a genuine defect: D17, repaired.)\n   The panic sites of the SOURCE that the model does not represent (it uses total functions there: slicing in\n   as_bytes / starts_with / process_cdata, from_utf8().unwrap() in skip_string, the debug assertions of push_ns and\n   of the range conversion, the swallowed advance in try_consume_byte; found by the model audit) are given strict\n   variants that DO panic there (Proofs/StrictModel.v) and proved unreachable: the builder sites over a whole run\n   (site_builder_run: the strict builder never panics), the others pointwise / on every constructible stream; the\n   table site -> theorem is in the header of Proofs/Strict.v.",
+   imports=["From RX.Proofs Require Import TermStream TermUtf8 TermParse TermFinal NoPanicUtf8 NoPanicStream NoPanicTokenizer NoPanicBuilder NoPanicBuilderCtx NoPanicText NoPanicParse NoPanicFinal StrictModel StrictTok StrictStream StrictBuilder StrictApi Strict."],
    groups=[("NoPanicFinal.v", ["parse_no_panic"]), ("TermFinal.v", ["parse_terminates"]),
+           ("Strict.v", ["site_builder_run", "site_cdata_unreachable", "site_ns_range_unreachable", "site_try_consume_byte_unreachable",
+                         "site_skip_string_unreachable", "site_advance_until2_unreachable", "strict_callback_refines"]),
            ("TermParse.v", ["tokenizer_terminates", "token_terminates", "token_preserves_depth0", "parse_document_terminates"]),
            ("TermUtf8.v", ["termination_needs_valid_utf8"], "Local Notation safe := TermStream.safe."),
            ("NoPanicTokenizer.v", ["tokenizer_no_panic"], "Local Notation token := Tokenizer.token."),
@@ -62,10 +64,12 @@ TABLE = {
            ("CstSoundNDoc.v", ["parse_sound_fragment_n", "parse_sound_fragment_n_res"], "Import CstFull."), ("CstSoundNCor.v", ["parse_sound_and_complete_n"], "Import CstFull."),
            ("NsRejMain.v", ["ns_violation_rejected"], "Import CstNs.")]),
  "C03": dict(
-   intro="C03 -- elements, comments and PIs mirror the document's logical structure.  Lexer post-conditions\n   (with a token recorder as callback): a comment token's text is exactly the source between '<!--' and\n   '-->'; a PI's target and value are the source strings (value without leading whitespace, None when\n   empty); CDATA / text tokens are their source slices; the DOCTYPE and the prolog / epilog deliver only\n   comments, PIs (and entity declarations); a start tag delivers ElementStart, attributes, one ElementEnd.\n   The XML declaration has no callback at all.  Document-level token shape: Proofs/RejectProofs.v.\n   Completeness on the fragment of Spec/Cst.v (ASCII names and content, no DOCTYPE, references, namespaces, CR): every\n   rendering of a well-formed abstract document -- with any layout choices: whitespace in tags, quote style,\n   empty-element syntax, prolog / epilog comments and PIs -- parses to exactly its meaning (view = sem:\n   kinds, names, attributes in order with values, comment text, PI target / value, text, children counts), so two\n   renderings with the same meaning give the same tree (layout_insensitive).  view is defined in Proofs/CstMain.v.\n   The same over Unicode (Spec/CstU.v: names, values, text, comments, PIs are lists of scalar values in the 5th-edition\n   Name / Char classes, rendered in UTF-8): parse_render_sem_u, layout_insensitive_u, render_valid_utf8.\n   The largest fragment (Spec/CstFull.v stage S3 = Unicode + namespaces + pieces + character-data entities, pinned under\n   C06) extended by the whole PROLOG (Spec/CstFullS5.v): byte order mark, XML declaration, DOCTYPE with external id and an\n   internal subset holding every kind of declaration (general / parameter / external / unparsed entities, ELEMENT /\n   ATTLIST / NOTATION, comments and PIs -- which become nodes under the Root), CR in markup whitespace:\n   parse_render_sem_full_s5 and prolog_insensitive_full_s5 (same meaning => same tree, whatever the prolog).",
-   imports=["From RX.Spec Require Cst.", "From RX.Spec Require CstU CstNs CstFull CstFullS5.", "From RX.Proofs Require Import LexerProofs RejectProofs CstMain CstUMain.", "From RX.Proofs Require CstNsView CstFullMain CstFullS5."],
+   intro="C03 -- elements, comments and PIs mirror the document's logical structure.  Lexer post-conditions\n   (with a token recorder as callback): a comment token's text is exactly the source between '<!--' and\n   '-->'; a PI's target and value are the source strings (value without leading whitespace, None when\n   empty); CDATA / text tokens are their source slices; the DOCTYPE and the prolog / epilog deliver only\n   comments, PIs (and entity declarations); a start tag delivers ElementStart, attributes, one ElementEnd.\n   The XML declaration has no callback at all.  Document-level token shape: Proofs/RejectProofs.v.\n   Completeness on the fragment of Spec/Cst.v (ASCII names and content, no DOCTYPE, references, namespaces, CR): every\n   rendering of a well-formed abstract document -- with any layout choices: whitespace in tags, quote style,\n   empty-element syntax, prolog / epilog comments and PIs -- parses to exactly its meaning (view = sem:\n   kinds, names, attributes in order with values, comment text, PI target / value, text, children counts), so two\n   renderings with the same meaning give the same tree (layout_insensitive).  view is defined in Proofs/CstMain.v.\n   The same over Unicode (Spec/CstU.v: names, values, text, comments, PIs are lists of scalar values in the 5th-edition\n   Name / Char classes, rendered in UTF-8): parse_render_sem_u, layout_insensitive_u, render_valid_utf8.\n   The largest fragment (Spec/CstFull.v stage S3 = Unicode + namespaces + pieces + character-data entities, pinned under\n   C06) extended by the whole PROLOG (Spec/CstFullS5.v): byte order mark, XML declaration, DOCTYPE with external id and an\n   internal subset holding every kind of declaration (general / parameter / external / unparsed entities, ELEMENT /\n   ATTLIST / NOTATION, comments and PIs -- which become nodes under the Root), CR in markup whitespace:\n   parse_render_sem_full_s5 and prolog_insensitive_full_s5 (same meaning => same tree, whatever the prolog).\n   THE CAPSTONE (Spec/CstFullS6.v): S4's entities (character data or markup with qualified names, resolved at the place\n   of reference) inside S5's prolog, CR in markup whitespace everywhere -- ONE statement for the whole supported subset:\n   parse_render_sem_full_s6; same meaning => same tree whatever the distribution over entities, the prolog and the layout\n   (hoist_prolog_insensitive_full_s6); S4 and S5 embed with the same rendering and meaning (s4_in_s6, s5_in_s6), hence\n   so do S1..S3.  What S6 still excludes is listed in the spec files: CR inside comment / PI bodies, '>' inside a literal of\n   a skipped markup declaration, '%' and character references to TAB / LF / CR / '&' / '<' inside entity literals, colons\n   in DOCTYPE / entity names, the CR LF proviso and D15.",
+   imports=["From RX.Spec Require Cst.", "From RX.Spec Require CstU CstNs CstFull CstFullS5.", "From RX.Proofs Require Import LexerProofs RejectProofs CstMain CstUMain.", "From RX.Proofs Require CstNsView CstFullMain CstFullS5 CstFullS6Main CstFullS6Embed5.", "From RX.Spec Require CstFullS4 CstFullS6."],
    groups=[("CstMain.v", ["parse_render_sem", "layout_insensitive"]),
            ("CstUMain.v", ["render_valid_utf8", "parse_render_sem_u", "layout_insensitive_u"]),
+           ("CstFullS6Main.v", ["parse_render_sem_full_s6", "hoist_prolog_insensitive_full_s6", "s4_in_s6"], "Import RX.Spec.CstFull. Import RX.Spec.CstFullS4. Import RX.Spec.CstFullS6. Import RX.Proofs.CstNsView. Import RX.Proofs.CstFullS6Main."),
+           ("CstFullS6Embed5.v", ["s5_in_s6"], "Import RX.Spec.CstFull. Import RX.Spec.CstFullS5. Import RX.Spec.CstFullS6. Import RX.Proofs.CstFullS6Main. Import RX.Proofs.CstFullS6Embed5."),
            ("CstFullS5.v", ["parse_render_sem_full_s5", "prolog_insensitive_full_s5"], "Import RX.Spec.CstFull. Import RX.Spec.CstFullS5. Import RX.Proofs.CstNsView. Import RX.Proofs.CstFullMain. Import RX.Proofs.CstFullS5."),
            ("LexerProofs.v", ["parse_comment_post", "parse_pi_post", "parse_cdata_post", "parse_text_post", "parse_close_element_post",
                               "parse_doctype_tokens", "parse_misc_tokens", "parse_element_tokens"], "Local Notation token := Tokenizer.token.", "forall (text : bytes),"),
@@ -106,9 +110,10 @@ TABLE = {
                                  "documented_limits", "chain_accepted_iff", "fan_accepted_iff", "flat_accepted"])]),
  "C10": dict(
    intro="C10 -- every read operation on a parsed document is total: for every successfully parsed document\n   (valid UTF-8 input, limit fitting the u32 field), every node id below the node count and every argument,\n   each accessor, axis, element variant, iterator constructor, name lookup, text / tail, root_element,\n   get_node (any id) and text_pos_at (any offset) of the model's API returns Ok -- it reaches none of the\n   panic sites of the source (unwrap, expect, indexing, slicing) and its loops do not run out of fuel.",
-   imports=["From RX.Spec Require Import Tree.", "From RX.Model Require Import Debug.", "From RX.Proofs Require Import ApiTotal PositionProofs DebugTotal."],
+   imports=["From RX.Spec Require Import Tree.", "From RX.Model Require Import Debug.", "From RX.Proofs Require Import ApiTotal PositionProofs DebugTotal StrictModel StrictApi Strict."],
    groups=[("ApiTotal.v", ["api_total", "api_total_doc"]), ("PositionProofs.v", ["text_pos_total_valid"]),
-           ("DebugTotal.v", ["debug_total", "debug_stack_bounded"])]),
+           ("DebugTotal.v", ["debug_total", "debug_stack_bounded"]),
+           ("Strict.v", ["site_debug_depth_unreachable"]), ("StrictApi.v", ["site_descendants_unreachable"])]),
  "C11": dict(
    intro="C11 -- navigation and iterators agree with the tree: every parsed document is an arena (Arena' d t:\n   the pre-order encoding of a well-formed document tree, NavParse.v), and on every arena each link accessor, axis, element variant, text/tail, root_element\n   and iterator of the model's API is the corresponding function of t, and the double-ended iterators\n   implement the deque specification for every sequence of operations.",
    imports=["From RX.Spec Require Import Tree Deque.", "From RX.Proofs Require Import NavEnc NavLinks NavIter NavAxes NavElem NavParse."],
@@ -128,12 +133,13 @@ TABLE = {
                                "lookup_prefix_xml", "lookup_prefix_first", "attr_eqb_spec"])]),
  "C13": dict(
    intro="C13 -- source ranges are valid and designate the construct they belong to.  For every parsed document\n   (entity-expanded nodes included): every node and attribute range is a valid slice of the input (start <=\n   end <= len, char boundaries), the root range is the whole input, every attribute lies strictly inside its\n   element's range with its qname sub-range inside it; for documents without a DOCTYPE a child's range lies\n   within its parent's and a node starts after its previous sibling ends.  Shape clauses, from the lexer\n   post-conditions: the range of a comment token is exactly '<!--' text '-->', of a PI token '<?' target ...\n   '?>', a start tag runs from '<' to its '>' and the name follows the '<', an end tag from '</' to '>';\n   text / CDATA ranges are the token's source.  Attribute sub-ranges (below the documented saturation limits):\n   the qname sub-range ends where the local name ends, the value sub-range is delimited by the same quote on\n   both sides, ends one byte before the attribute's end, equals a borrowed value's slice, and only whitespace and\n   one '=' separate it from the qname.  Shift: prepending whitespace to an input that starts with neither a BOM nor\n   an XML declaration yields the same document with every non-root range moved by exactly that length.\n   Whole documents on the fragment of Spec/Cst.v: the range of every node is exactly the span of its construct in\n   the rendering (spans c, CstRangeDefs.v: an element from its '<' to the '>' of its end or empty-element tag), the\n   root range is the whole input, attribute range / qname / value sub-ranges are exactly the written name-to-quote,\n   name and between-the-quotes spans (attr_spans c); hence the slice shapes C13 names (EXTRA below).",
-   imports=["From RX.Proofs Require Import LexerProofs NoPanicTokenizer RangeTokenizer RangeArena RangeInv RangeBuilder RangeParse RangeAttrLocal RangeAttrTok RangeAttrParse RangeShiftBase RangeShiftStream RangeShiftTokenizer RangeShiftBuilder RangeShiftParse RangeShiftFinal CstRangeDefs CstRangeMain CstRangeTDefs CstRangeTMain CstEntDoc CstRangeEDefs CstRangeEMain CstRangeEValid.", "From RX.Spec Require Cst CstText CstEnt."],
+   imports=["From RX.Proofs Require Import LexerProofs NoPanicTokenizer RangeTokenizer RangeArena RangeInv RangeBuilder RangeParse RangeAttrLocal RangeAttrTok RangeAttrParse RangeShiftBase RangeShiftStream RangeShiftTokenizer RangeShiftBuilder RangeShiftParse RangeShiftFinal CstRangeDefs CstRangeMain CstRangeTDefs CstRangeTMain CstEntDoc CstRangeEDefs CstRangeEMain CstRangeEValid.", "From RX.Spec Require Cst CstText CstEnt CstFull.", "From RX.Proofs Require CstRangeFDefs CstRangeFS2."],
    groups=[("RangeParse.v", ["parse_ranges_valid", "parse_attr_ranges_inside", "parse_ranges_nest", "parse_ranges_siblings"]),
            ("RangeAttrParse.v", ["parse_attr_subranges"]), ("RangeShiftFinal.v", ["parse_shift_whitespace_partial"]),
            ("CstRangeMain.v", ["parse_render_ranges", "parse_render_attr_ranges"]),
            ("CstRangeTMain.v", ["parse_render_ranges_t", "parse_render_attr_ranges_t"], "Module T := CstText."),
            ("CstRangeEMain.v", ["parse_render_ranges_e"], "Module E := CstEnt."), ("CstRangeEValid.v", ["ranges_valid_e"], "Module E := CstEnt."),
+           ("CstRangeFS2.v", ["parse_render_ranges_f2", "parse_render_attr_ranges_f2"], "Import RX.Spec.CstFull. Import RX.Proofs.CstRangeFDefs. Import RX.Proofs.CstRangeFS2."),
            ("RangeTokenizer.v", ["tokenizer_token_ranges"], "Local Notation token := Tokenizer.token."),
            ("LexerProofs.v", ["parse_comment_post", "parse_pi_post", "parse_cdata_post", "parse_text_post", "parse_element_tokens",
                               "parse_close_element_post"], "Local Notation token := Tokenizer.token.", "forall (text : bytes),")]),
@@ -160,14 +166,15 @@ TABLE = {
            ("CstFullS5.v", ["dtd_refused_full", "no_dtd_any_option"], "Import RX.Spec.CstFull. Import RX.Spec.CstFullS5. Import RX.Proofs.CstNsView. Import RX.Proofs.CstFullMain. Import RX.Proofs.CstFullS5.")]),
  "C18": dict(
    intro="C18 -- borrowed strings are slices of the input; undecoded content is not copied.  In the model a\n   borrowed string is an offset pair; every such pair in a parsed document is a valid slice of the input\n   (start <= end <= len, both on char boundaries), the only 'static strings are those of the xml\n   namespace, and the fast paths keep text / CDATA / attribute values borrowed.  Whole documents on the fragment of\n   Spec/Cst.v (parse_render_storage): every Text node and every attribute value is stored Borrowed with exactly the\n   span where it is written, and every name (tag, attribute, PI target, PI value, comment text) is the slice of its\n   written occurrence (shapes c / attr_spans c, CstRangeDefs.v).  On the fragment of Spec/CstText.v\n   (parse_render_storage_t; tshapes / tattr_spans in CstRangeTDefs.v): a run that is ONE literal without CR is Borrowed\n   with exactly its span; a run that is ONE CDATA section without CR is Borrowed with the span of its content; every other\n   run is Owned with the decoded text; an attribute value that is empty or one literal without TAB / LF / CR is Borrowed\n   with the span between the quotes, every other is Owned with the normalised value -- undecoded content is never copied.",
-   imports=["From RX.Spec Require Cst.", "From RX.Spec Require CstText CstEnt.", "From RX.Proofs Require Import BorrowLocal BorrowTokenizer BorrowParse TextMerge CstRangeDefs CstRangeMain CstRangeTDefs CstRangeTMain CstEntDoc CstRangeEDefs CstRangeEMain."],
+   imports=["From RX.Spec Require Cst.", "From RX.Spec Require CstText CstEnt.", "From RX.Proofs Require Import BorrowLocal BorrowTokenizer BorrowParse TextMerge CstRangeDefs CstRangeMain CstRangeTDefs CstRangeTMain CstEntDoc CstRangeEDefs CstRangeEMain.", "From RX.Spec Require CstFull.", "From RX.Proofs Require CstRangeFDefs CstRangeFS2."],
    groups=[("BorrowLocal.v", ["mk_slice_valid", "fast_path_text", "fast_path_attr", "fast_path_cdata"]),
            ("BorrowTokenizer.v", ["tokenizer_tokens_ok", "tokenizer_content_tokens_ok"], "Local Notation token := Tokenizer.token."),
            ("BorrowParse.v", ["token_preserves_borrows", "parse_borrows_ok", "static_only_xml"]),
            ("TextMerge.v", ["single_fragment_storage"]),
            ("CstRangeMain.v", ["parse_render_storage"]),
            ("CstRangeTMain.v", ["parse_render_storage_t"], "Module T := CstText."),
-           ("CstRangeEMain.v", ["parse_render_storage_e"], "Module E := CstEnt.")]),
+           ("CstRangeEMain.v", ["parse_render_storage_e"], "Module E := CstEnt."),
+           ("CstRangeFS2.v", ["parse_render_storage_f2"], "Import RX.Spec.CstFull. Import RX.Proofs.CstRangeFDefs. Import RX.Proofs.CstRangeFS2.")]),
  "C19": dict(
    intro="C19 -- the `positions` feature only adds API surface: the fields it removes (NodeData.range,\n   AttributeData.range / qname_len / eq_len) are write-only for the parser.  A builder that strips them after\n   every token produces exactly the stripped document and the same errors, for the tokenizer run and for the\n   whole parse (parse_np_correct).  Determinism itself holds of the model by construction (it is a function)\n   and is decided for the code by the feature-set / repetition correspondence.",
    imports=["From RX.Proofs Require Import OptionsParam PositionsNonInterf."],
